@@ -61,6 +61,8 @@ def families(tier, seed):
     out.append(dict(name='closed-loop monitor rabin games: witness of known finding F3 (seed 1, games 1..10)', run=gm.monitor('rabin', 1, 10, 'cudd'), label='bounded'))
     out.append(dict(name='closed-loop monitor rabin games: witness of known finding stale-hold (seed 2, games 1..48)', run=gm.monitor('rabin', 2, 48, 'cudd'), label='bounded'))
     out.append(dict(name='closed-loop monitor rabin games (autoref)', run=gm.monitor('rabin', seed * 100 + 50, n // 8, 'autoref'), label='bounded'))
+    from contracts import optdiff as _od
+    out.append(dict(name='same results with assert statements stripped (python -O), section C01', run=_od.family('C01'), label='bounded'))
     return out
 
 
